@@ -192,8 +192,15 @@ int main(int argc, char** argv)
 		vsched::beginFree(rng.next(), rng.range(0, 40));
 		// sometimes hold a library thread (without a cancellation point) right after a hand-over step, so that a
 		// stop()/destructor that does not wait for it is caught touching freed memory:
-		//   35 = accept thread just after running := false;  41 = handler thread just after --count
-		if (rng.chance(35)) { vsched::S().delayKind = rng.chance(60) ? 35 : 41; vsched::S().delayMs = rng.range(120, 300); }
+		//   35 = accept thread just after running := false;  41 = handler thread just after --count;
+		//   12 = any library thread at its very start, before run() (a slow thread start-up: a connection that is only counted
+		//        by its handler thread would be invisible to stop(true) for that long - on an idle machine the window is a few us)
+		if (rng.chance(45))
+		{
+			int r = rng.below(100);
+			vsched::S().delayKind = r < 40 ? 35 : r < 70 ? 41 : 12;
+			vsched::S().delayMs = rng.range(120, 300);
+		}
 		ok = scenario(rng, idx++);
 		vsched::end();
 		fprintf(f, "{\"k\":0,\"t\":0,\"o\":0,\"v\":0}\n");
